@@ -189,7 +189,7 @@ def probe_views_immutable(topo, nodes_view):
                 if act == 'setitem':
                     v['zz-injected'] = first
                 elif act == 'delitem':
-                    del v[keys_before[0]] if keys_before else v['x']
+                    del v[keys_before[0] if keys_before else 'x']
                 elif act == 'update':
                     v.update({'zz-injected': first})
                 elif act == 'clear':
